@@ -191,6 +191,9 @@ func main() {
 		}
 		c := &Ctx{P: p, R: r, Tier: *tier}
 		pc.run(c)
+		if *tier == "thorough" && os.Getenv("YQCHECK_NESTED") == "" {
+			thoroughExtras(r, *repo, *verif, *prop)
+		}
 		return r.Finish(*verif, *evidence, known, cmdline)
 	}()
 	os.Exit(exit)
